@@ -426,6 +426,11 @@ pub mod history {
         pub query: B,
         /// None: `global`; Some(e): `global_banded` with bandwidth = node count + |query| + e
         pub banded: Option<usize>,
+        /// calls through the other entry points made on the same aligner immediately before this step's
+        /// alignment, results ignored (0: semiglobal, 1: local, 2: custom, 3: global, each with the reversed
+        /// query): what the aligner computed before must not leak into the next alignment
+        #[serde(default)]
+        pub prelude: Vec<u8>,
     }
 
     #[derive(Serialize, Deserialize, Debug, Clone)]
@@ -498,8 +503,8 @@ pub mod history {
         let qs: Vec<String> = c.steps[..upto]
             .iter()
             .map(|s| match s.banded {
-                None => format!("global({:?})", lossy(&s.query)),
-                Some(e) => format!("global_banded({:?},+{})", lossy(&s.query), e),
+                None => format!("{}global({:?})", if s.prelude.is_empty() { String::new() } else { format!("[other entry points {:?} on the reversed query] ", s.prelude) }, lossy(&s.query)),
+                Some(e) => format!("{}global_banded({:?},+{})", if s.prelude.is_empty() { String::new() } else { format!("[other entry points {:?} on the reversed query] ", s.prelude) }, lossy(&s.query), e),
             })
             .collect();
         format!("reference {:?} scoring {:?} gap {} after [{}]", lossy(&c.reference), c.score, c.gap, qs.join(", "))
@@ -538,6 +543,19 @@ pub mod history {
         let mut pass = Pass::new(c.steps.len() >= 2);
         for (k, st) in c.steps.iter().enumerate() {
             let q: &[u8] = &st.query;
+            if !st.prelude.is_empty() {
+                let rq: Vec<u8> = q.iter().rev().copied().collect();
+                for &e in &st.prelude {
+                    let _ = match e % 4 {
+                        0 => al.semiglobal(&rq).alignment().score,
+                        1 => al.local(&rq).alignment().score,
+                        2 => al.custom(&rq).alignment().score,
+                        _ => al.global(&rq).alignment().score,
+                    };
+                }
+                pass.add("other entry points called before the step's alignment");
+                pass.add_if(st.banded.is_some() && st.prelude.last().map_or(false, |e| e % 4 < 2), "semiglobal/local immediately before global_banded");
+            }
             let a = match st.banded {
                 None => al.global(q).alignment(),
                 Some(e) => al.global_banded(q, before.labels.len() + q.len() + e).alignment(),
@@ -626,12 +644,12 @@ pub mod history {
                 // identity histories: only copies of the reference under a scoring with a unique optimum
                 let qs = if identity { Just(QSpec::Same).boxed() } else { query_spec(sigma) };
                 let sc = if identity { strict_score(sigma) } else { score(sigma) };
-                let step = (qs, proptest::option::weighted(0.3, 0usize..=3));
+                let step = (qs, proptest::option::weighted(0.3, 0usize..=3), prop_oneof![3 => Just(Vec::new()), 1 => proptest::collection::vec(0u8..4, 1..=2)]);
                 let steps = prop_oneof![1 => proptest::collection::vec(step.clone(), 0..=1), 6 => proptest::collection::vec(step, 2..=5)];
                 (reference, steps, sc, -3i32..=0, -5i32..=0)
             })
             .prop_map(|(r, steps, score, gap, gap_extend)| {
-                let steps = steps.into_iter().map(|(qs, banded)| Step { query: B(realise(&r, &qs)), banded }).collect();
+                let steps = steps.into_iter().map(|(qs, banded, prelude)| Step { query: B(realise(&r, &qs)), banded, prelude }).collect();
                 Case { reference: B(r), score, gap, gap_extend, steps }
             })
             .boxed()
